@@ -551,3 +551,574 @@ theorem operation_app (z : List Char) (h : Sep t T0) : operation (z ++ t) = mapR
         · simp [h1, h2, h3, mapRest]
 
 end Semver
+
+namespace Semver
+open Pred Bound
+
+variable {t T0 : List Char}
+
+/-- `partial_version` after skipping blanks, at the separator: either the blanks run into `||` and
+both fail, or the separator stays behind -/
+theorem partialVersion_dropBlanks_app (r : List Char) (h : Sep t T0) :
+    partialVersion (dropBlanks (r ++ t)) = mapRest t (partialVersion (dropBlanks r)) := by
+  rw [dropBlanks_app r h]
+  by_cases hr : dropBlanks r = []
+  · rw [if_pos hr, hr, partialVersion_T0 h, partialVersion_nil]; rfl
+  · rw [if_neg hr]; exact partialVersion_app _ h
+
+theorem primitive_app (z : List Char) (h : Sep t T0) : primitive (z ++ t) = mapRest t (primitive z) := by
+  unfold primitive
+  rw [operation_app z h]
+  cases ho : operation z with
+  | none => rfl
+  | some x =>
+    obtain ⟨op, r⟩ := x
+    simp only [mapRest, Option.map_some]
+    rw [partialVersion_dropBlanks_app r h]
+    cases partialVersion (dropBlanks r) with
+    | none => rfl
+    | some y => simp [mapRest]
+
+theorem partialP_app (z : List Char) (h : Sep t T0) : partialP (z ++ t) = mapRest t (partialP z) := by
+  unfold partialP
+  rw [partialVersion_app z h]
+  cases partialVersion z with
+  | none => rfl
+  | some y => simp [mapRest]
+
+theorem caret_app (z : List Char) (h : Sep t T0) : caret (z ++ t) = mapRest t (caret z) := by
+  cases z with
+  | nil => rw [List.nil_append, h.eq]; simp [caret, mapRest]
+  | cons c cs =>
+    by_cases hc : c = '^'
+    · subst hc
+      simp only [List.cons_append, caret]
+      rw [partialVersion_dropBlanks_app cs h]
+      cases partialVersion (dropBlanks cs) with
+      | none => rfl
+      | some y => simp [mapRest]
+    · have e : ∀ l : List Char, caret (c :: l) = none := by
+        intro l; unfold caret; split
+        · rename_i u heq; simp only [List.cons.injEq] at heq; exact absurd heq.1 hc
+        · rfl
+      simp only [List.cons_append]
+      rw [e, e]; rfl
+
+theorem stripGt_app (z : List Char) (h : Sep t T0) (hz : z ≠ []) :
+    stripGt (z ++ t) = ((stripGt z).1, (stripGt z).2 ++ t) := by
+  cases z with
+  | nil => exact absurd rfl hz
+  | cons c cs =>
+    by_cases hc : c = '>'
+    · subst hc; rfl
+    · have e : ∀ l : List Char, stripGt (c :: l) = (false, c :: l) := by
+        intro l; unfold stripGt; split
+        · rename_i u heq; simp only [List.cons.injEq] at heq; exact absurd heq.1 hc
+        · rfl
+      simp only [List.cons_append]
+      rw [e, e]; rfl
+
+theorem stripGt_T0 (h : Sep t T0) : stripGt T0 = (false, T0) := by
+  obtain ⟨b, hb⟩ := h.bars
+  rw [hb]; rfl
+
+/-- `tilde` at the separator -/
+theorem tilde_app (z : List Char) (h : Sep t T0) : tilde (z ++ t) = mapRest t (tilde z) := by
+  cases z with
+  | nil => rw [List.nil_append, h.eq]; simp [tilde, tildeGt, mapRest]
+  | cons c cs =>
+    by_cases hc : c = '~'
+    · subst hc
+      simp only [List.cons_append]
+      unfold tilde tildeGt
+      simp only
+      rw [dropBlanks_app cs h]
+      by_cases hcs : dropBlanks cs = []
+      · -- the blanks after `~` run into the separator: both fail
+        rw [if_pos hcs, hcs, stripGt_T0 h]
+        simp only [dropBlanks_T0 h]
+        have : stripGt [] = (false, []) := rfl
+        rw [this]
+        simp only
+        have e : dropBlanks [] = [] := rfl
+        rw [e, partialVersion_T0 h, partialVersion_nil]; rfl
+      · rw [if_neg hcs, stripGt_app _ h hcs]
+        simp only
+        rw [partialVersion_dropBlanks_app _ h]
+        cases partialVersion (dropBlanks (stripGt (dropBlanks cs)).2) with
+        | none => rfl
+        | some y => simp [mapRest]
+    · have e : ∀ l : List Char, tildeGt (c :: l) = none := by
+        intro l; unfold tildeGt; split
+        · rename_i u heq; simp only [List.cons.injEq] at heq; exact absurd heq.1 hc
+        · rfl
+      simp only [List.cons_append]
+      unfold tilde
+      rw [e, e]; rfl
+
+end Semver
+
+namespace Semver
+open Pred Bound
+
+variable {t T0 : List Char}
+
+theorem optPartial_app (z : List Char) (h : Sep t T0) :
+    optPartial (z ++ t) = ((optPartial z).1, (optPartial z).2 ++ t) := by
+  unfold optPartial
+  rw [partialVersion_app z h]
+  cases partialVersion z with
+  | none => rfl
+  | some x => simp [mapRest]
+
+theorem dash_T0 (h : Sep t T0) : dash T0 = none := by
+  obtain ⟨b, hb⟩ := h.bars; rw [hb]; rfl
+
+theorem dash_app (z : List Char) (hz : z ≠ []) : dash (z ++ t) = (dash z).map (· ++ t) := by
+  cases z with
+  | nil => exact absurd rfl hz
+  | cons c cs =>
+    by_cases hc : c = '-'
+    · subst hc; rfl
+    · have e : ∀ l : List Char, dash (c :: l) = none := by
+        intro l; unfold dash; split
+        · rename_i u heq; simp only [List.cons.injEq] at heq; exact absurd heq.1 hc
+        · rfl
+      simp only [List.cons_append]
+      rw [e, e]; rfl
+
+/-- `space1` then a parser that fails both on the empty input and right at `||` -/
+theorem blanks1_then {α : Type} (f : List Char → Option (α × List Char)) (z : List Char) (h : Sep t T0)
+    (hnil : f [] = none) (hT0 : f T0 = none) (happ : ∀ y, y ≠ [] → f (y ++ t) = mapRest t (f y)) :
+    (match blanks1 (z ++ t) with | none => none | some r => f r) =
+      mapRest t (match blanks1 z with | none => none | some r => f r) := by
+  rw [blanks1_app z h]
+  cases z with
+  | nil => simp only [blanks1, hT0]; rfl
+  | cons c cs =>
+    simp only [blanks1]
+    by_cases hc : isBlank c = true
+    · simp only [hc, if_true]
+      by_cases hd : dropBlanks cs = []
+      · simp only [hd, if_true, hT0, hnil]; rfl
+      · simp only [hd, if_false]; exact happ _ hd
+    · simp only [hc, Bool.false_eq_true, if_false]; rfl
+
+theorem hyphenRest_app (z : List Char) (h : Sep t T0) : hyphenRest (z ++ t) = mapRest t (hyphenRest z) := by
+  -- innermost: space1 then partial_version
+  have inner : ∀ y : List Char,
+      (match blanks1 (y ++ t) with | none => none | some r => partialVersion r) =
+        mapRest t (match blanks1 y with | none => none | some r => partialVersion r) :=
+    fun y => blanks1_then partialVersion y h partialVersion_nil (partialVersion_T0 h)
+      (fun y _ => partialVersion_app y h)
+  -- middle: "-" then the inner part
+  let g : List Char → Option (Partial × List Char) := fun r1 =>
+    match dash r1 with
+    | none => none
+    | some r2 => match blanks1 r2 with | none => none | some r3 => partialVersion r3
+  have gnil : g [] = none := rfl
+  have gT0 : g T0 = none := by simp only [g, dash_T0 h]
+  have gapp : ∀ y, y ≠ [] → g (y ++ t) = mapRest t (g y) := by
+    intro y hy
+    simp only [g]
+    rw [dash_app y hy]
+    cases dash y with
+    | none => rfl
+    | some r2 => simp only [Option.map_some]; exact inner r2
+  have := blanks1_then g z h gnil gT0 gapp
+  unfold hyphenRest
+  exact this
+
+theorem hyphen_app (z : List Char) (h : Sep t T0) : hyphen (z ++ t) = mapRest t (hyphen z) := by
+  unfold hyphen
+  simp only
+  rw [optPartial_app z h]
+  simp only
+  rw [hyphenRest_app _ h]
+  cases hyphenRest (optPartial z).2 with
+  | none => rfl
+  | some x => simp [mapRest]
+
+theorem atEnd_cons2 (c d : Char) (l : List Char) :
+    atEnd (c :: d :: l) = if c = '|' ∧ d = '|' then true else isBlank c := by
+  by_cases h : c = '|' ∧ d = '|'
+  · obtain ⟨rfl, rfl⟩ := h; simp [atEnd]
+  · rw [if_neg h]
+    unfold atEnd
+    split
+    · rename_i heq; simp at heq
+    · rename_i u heq
+      simp only [List.cons.injEq] at heq
+      exact absurd ⟨heq.1, heq.2.1⟩ h
+    · rename_i e u heq
+      simp only [List.cons.injEq] at heq
+      rw [heq.1]
+
+theorem atEnd_one (c : Char) : atEnd [c] = isBlank c := by
+  unfold atEnd
+  split
+  · rename_i heq; simp at heq
+  · rename_i u heq; simp at heq
+  · rename_i e u heq; simp only [List.cons.injEq] at heq; rw [heq.1]
+
+theorem atEnd_app (r : List Char) (h : Sep t T0) : atEnd (r ++ t) = atEnd r := by
+  cases r with
+  | nil => rw [List.nil_append, h.eq]; simp [atEnd, isBlank]
+  | cons c cs =>
+    cases cs with
+    | nil =>
+      rw [h.eq]
+      simp only [List.cons_append, List.nil_append]
+      rw [atEnd_cons2, atEnd_one]
+      have : ¬ (c = '|' ∧ (' ' : Char) = '|') := by intro ⟨_, h2⟩; revert h2; decide
+      rw [if_neg this]
+    | cons d ds =>
+      simp only [List.cons_append]
+      rw [atEnd_cons2, atEnd_cons2]
+
+theorem terminated_app {r : Option (Option BoundSet × List Char)} (h : Sep t T0) :
+    terminated (mapRest t r) = mapRest t (terminated r) := by
+  cases r with
+  | none => rfl
+  | some x =>
+    obtain ⟨b, rest⟩ := x
+    simp only [mapRest, Option.map_some, terminated]
+    rw [atEnd_app rest h]
+    split <;> rfl
+
+theorem garbage_app (z : List Char) (h : Sep t T0) : garbage (z ++ t) = garbage z ++ t := by
+  induction z with
+  | nil =>
+    rw [List.nil_append, h.eq]
+    simp [garbage, atEnd, isBlank]
+  | cons c cs ih =>
+    have ha := atEnd_app (c :: cs) h
+    simp only [List.cons_append] at ha ⊢
+    unfold garbage
+    rw [ha]
+    split
+    · rfl
+    · exact ih
+
+/-- **`simple` at the separator**: same result, separator left behind -/
+theorem simple_app (z : List Char) (h : Sep t T0) : simple (z ++ t) = ((simple z).1, (simple z).2 ++ t) := by
+  unfold simple
+  rw [hyphen_app z h, terminated_app h, primitive_app z h, terminated_app h, partialP_app z h, terminated_app h,
+    tilde_app z h, terminated_app h, caret_app z h, terminated_app h, garbage_app z h]
+  cases terminated (hyphen z) with
+  | some x => simp [mapRest]
+  | none =>
+    simp only [mapRest, Option.map_none]
+    cases terminated (primitive z) with
+    | some x => simp
+    | none =>
+      simp only [Option.map_none]
+      cases terminated (partialP z) with
+      | some x => simp
+      | none =>
+        simp only [Option.map_none]
+        cases terminated (tilde z) with
+        | some x => simp
+        | none =>
+          simp only [Option.map_none]
+          cases terminated (caret z) with
+          | some x => simp
+          | none => simp
+
+end Semver
+
+namespace Semver
+open Pred Bound
+
+variable {t T0 : List Char}
+
+/-! ### the loops -/
+
+theorem garbage_atEnd (s : List Char) : atEnd (garbage s) = true := by
+  induction s with
+  | nil => rfl
+  | cons c cs ih =>
+    unfold garbage
+    split
+    · assumption
+    · exact ih
+
+theorem terminated_atEnd {r : Option (Option BoundSet × List Char)} {x : Option BoundSet × List Char}
+    (h : terminated r = some x) : atEnd x.2 = true := by
+  unfold terminated at h
+  split at h
+  · split at h
+    · cases h; assumption
+    · cases h
+  · cases h
+
+theorem simple_atEnd (s : List Char) : atEnd (simple s).2 = true := by
+  unfold simple
+  split
+  · rename_i x h; exact terminated_atEnd h
+  · split
+    · rename_i x h; exact terminated_atEnd h
+    · split
+      · rename_i x h; exact terminated_atEnd h
+      · split
+        · rename_i x h; exact terminated_atEnd h
+        · split
+          · rename_i x h; exact terminated_atEnd h
+          · exact garbage_atEnd s
+
+/-- the input at an alternative boundary: end of input or `||` -/
+def AtBar (x : List Char) : Prop := x = [] ∨ ∃ u, x = '|' :: '|' :: u
+
+theorem atBar_of_atEnd {x : List Char} (h1 : atEnd x = true) (h2 : blanks1 x = none) : AtBar x := by
+  cases x with
+  | nil => exact Or.inl rfl
+  | cons c cs =>
+    have hc : isBlank c = false := by
+      unfold blanks1 at h2
+      cases hb : isBlank c with
+      | false => rfl
+      | true => simp [hb] at h2
+    cases cs with
+    | nil => rw [atEnd_one] at h1; rw [h1] at hc; cases hc
+    | cons d ds =>
+      rw [atEnd_cons2] at h1
+      by_cases hbar : c = '|' ∧ d = '|'
+      · obtain ⟨rfl, rfl⟩ := hbar; exact Or.inr ⟨ds, rfl⟩
+      · rw [if_neg hbar] at h1; rw [h1] at hc; cases hc
+
+theorem rangeTail_atBar (s : List Char) (hs : atEnd s = true) : AtBar (rangeTail s).2 := by
+  generalize hn : s.length = n
+  induction n using Nat.strongRecOn generalizing s with
+  | _ n ih =>
+    cases hb : blanks1 s with
+    | none => rw [rangeTail_none hb]; exact atBar_of_atEnd hs hb
+    | some r =>
+      rw [rangeTail_some hb]
+      have h1 := blanks1_length hb
+      have h2 := simple_length r
+      exact ih (simple r).2.length (by omega) (simple r).2 (simple_atEnd r) rfl
+
+theorem rangeP_atBar (s : List Char) : AtBar (rangeP s).2 := by
+  unfold rangeP
+  exact rangeTail_atBar _ (simple_atEnd s)
+
+theorem foldSets_congr {a b : List (Option BoundSet)} (h : a.filterMap id = b.filterMap id) :
+    foldSets a = foldSets b := by
+  unfold foldSets; rw [h]
+
+theorem simple_T0 (h : Sep t T0) : simple T0 = (none, T0) := by
+  obtain ⟨b, hb⟩ := h.bars
+  have hpv := partialVersion_T0 h
+  have hb1 := blanks1_T0 h
+  have e1 : hyphen T0 = none := by
+    unfold hyphen optPartial hyphenRest; simp only [hpv, hb1]
+  have e2 : primitive T0 = none := by
+    unfold primitive
+    have : operation T0 = none := by rw [hb]; simp [operation]
+    rw [this]
+  have e3 : partialP T0 = none := by unfold partialP; rw [hpv]
+  have e4 : tilde T0 = none := by
+    unfold tilde tildeGt; rw [hb]; rfl
+  have e5 : caret T0 = none := by unfold caret; rw [hb]; rfl
+  have e6 : garbage T0 = T0 := by
+    rw [hb]; unfold garbage; simp [atEnd]
+  unfold simple
+  rw [e1, e2, e3, e4, e5, e6]
+  rfl
+
+/-- `separated(0.., simple, space1)` at the separator: the same comparators (up to dropped ones), and
+the rest is `t` appended, or `||…` when the comparator list ran up to the end of the text -/
+theorem rangeTail_app (z : List Char) (h : Sep t T0) :
+    (rangeTail (z ++ t)).1.filterMap id = (rangeTail z).1.filterMap id ∧
+    (rangeTail (z ++ t)).2 = (if (rangeTail z).2 = [] then T0 else (rangeTail z).2 ++ t) := by
+  generalize hn : z.length = n
+  induction n using Nat.strongRecOn generalizing z with
+  | _ n ih =>
+    have hbt := blanks1_app z h
+    cases z with
+    | nil =>
+      simp only at hbt
+      rw [List.nil_append, rangeTail_some (blanks1_t h), simple_T0 h]
+      simp only
+      rw [rangeTail_none (blanks1_T0 h), rangeTail_none (by rfl : blanks1 [] = none)]
+      simp
+    | cons c cs =>
+      simp only at hbt
+      by_cases hc : isBlank c = true
+      · rw [if_pos hc] at hbt
+        have hbz : blanks1 (c :: cs) = some (dropBlanks cs) := by simp [blanks1, hc]
+        rw [rangeTail_some hbt, rangeTail_some hbz]
+        by_cases hd : dropBlanks cs = []
+        · simp only [hd, if_true]
+          rw [simple_T0 h]
+          have : simple [] = (none, []) := by
+            have a1 : partialVersion [] = none := partialVersion_nil
+            have a2 : hyphen [] = none := by unfold hyphen optPartial hyphenRest; simp only [a1]; rfl
+            have a3 : primitive [] = none := rfl
+            have a4 : partialP [] = none := by unfold partialP; rw [a1]
+            have a5 : tilde [] = none := rfl
+            have a6 : caret [] = none := rfl
+            unfold simple
+            rw [a2, a3, a4, a5, a6]; rfl
+          rw [this]
+          simp only
+          rw [rangeTail_none (blanks1_T0 h), rangeTail_none (by rfl : blanks1 [] = none)]
+          simp
+        · simp only [hd, if_false]
+          rw [simple_app _ h]
+          simp only
+          have hl1 := dropBlanks_length_le cs
+          have hl2 := simple_length (dropBlanks cs)
+          have := ih (simple (dropBlanks cs)).2.length (by simp at hn; omega) (simple (dropBlanks cs)).2 rfl
+          refine ⟨?_, this.2⟩
+          simp only [List.filterMap_cons]
+          rw [this.1]
+      · have hcf : isBlank c = false := by simpa using hc
+        rw [if_neg hc] at hbt
+        have hbz : blanks1 (c :: cs) = none := by simp [blanks1, hcf]
+        rw [rangeTail_none hbt, rangeTail_none hbz]
+        simp
+
+theorem rangeP_app (z : List Char) (h : Sep t T0) :
+    (rangeP (z ++ t)).1 = (rangeP z).1 ∧
+    (rangeP (z ++ t)).2 = (if (rangeP z).2 = [] then T0 else (rangeP z).2 ++ t) := by
+  unfold rangeP
+  simp only
+  rw [simple_app z h]
+  simp only
+  have := rangeTail_app (simple z).2 h
+  refine ⟨?_, this.2⟩
+  apply foldSets_congr
+  simp only [List.filterMap_cons]
+  rw [this.1]
+
+end Semver
+
+namespace Semver
+open Pred Bound
+
+variable {t T0 : List Char}
+
+theorem logicalOr_T0 (h : Sep t T0) (bb : List Char) (hb : T0 = '|' :: '|' :: bb) :
+    logicalOr T0 = some (dropBlanks bb) := by
+  unfold logicalOr
+  rw [dropBlanks_T0 h, hb]
+  rfl
+
+theorem rangeP_T0 (h : Sep t T0) : rangeP T0 = ([], T0) := by
+  unfold rangeP
+  rw [simple_T0 h]
+  simp only
+  rw [rangeTail_none (blanks1_T0 h)]
+  rfl
+
+theorem rangeP_nil : rangeP [] = ([], []) := by
+  have : simple [] = (none, []) := by
+    have a1 : partialVersion [] = none := partialVersion_nil
+    have a2 : hyphen [] = none := by unfold hyphen optPartial hyphenRest; simp only [a1]; rfl
+    have a4 : partialP [] = none := by unfold partialP; rw [a1]
+    unfold simple
+    rw [a2, a4]; rfl
+  unfold rangeP
+  rw [this]
+  simp only
+  rw [rangeTail_none (by rfl : blanks1 [] = none)]
+  rfl
+
+theorem boundSetsTail_nil : boundSetsTail [] = ([], []) :=
+  boundSetsTail_none (by simp [logicalOr, dropBlanks, span])
+
+/-- the alternatives after the separator -/
+def afterSep (bb : List Char) : List BoundSet := (boundSets (dropBlanks bb)).1
+
+theorem boundSetsTail_T0 (h : Sep t T0) (bb : List Char) (hb : T0 = '|' :: '|' :: bb) :
+    (boundSetsTail T0).1.flatten = afterSep bb := by
+  rw [boundSetsTail_some (logicalOr_T0 h bb hb)]
+  rfl
+
+/-- **the alternatives loop at the separator**: everything `x` yields, then everything after the `||` -/
+theorem boundSetsTail_app (x : List Char) (hx : AtBar x) (h : Sep t T0) (bb : List Char)
+    (hb : T0 = '|' :: '|' :: bb) :
+    (boundSetsTail (if x = [] then T0 else x ++ t)).1.flatten = (boundSetsTail x).1.flatten ++ afterSep bb := by
+  generalize hn : x.length = n
+  induction n using Nat.strongRecOn generalizing x with
+  | _ n ih =>
+    rcases hx with rfl | ⟨u, rfl⟩
+    · simp only [if_true]
+      rw [boundSetsTail_T0 h bb hb, boundSetsTail_nil]; rfl
+    · have hne : ('|' :: '|' :: u) ≠ [] := by simp
+      rw [if_neg hne]
+      have hlo : logicalOr ('|' :: '|' :: u) = some (dropBlanks u) := by
+        unfold logicalOr
+        have : dropBlanks ('|' :: '|' :: u) = '|' :: '|' :: u := by
+          have := dropBlanks_append [] ('|' :: '|' :: u) (by simp) (by intro c hc; simp at hc; subst hc; decide)
+          simpa using this
+        rw [this]
+        rfl
+      have hlot : logicalOr ('|' :: '|' :: u ++ t) =
+          some (if dropBlanks u = [] then T0 else dropBlanks u ++ t) := by
+        unfold logicalOr
+        have : dropBlanks ('|' :: '|' :: u ++ t) = '|' :: '|' :: (u ++ t) := by
+          have := dropBlanks_append [] ('|' :: '|' :: (u ++ t)) (by simp)
+            (by intro c hc; simp at hc; subst hc; decide)
+          simpa using this
+        rw [this]
+        simp only
+        rw [dropBlanks_app u h]
+      rw [boundSetsTail_some hlo, boundSetsTail_some hlot]
+      by_cases hd : dropBlanks u = []
+      · simp only [hd, if_true]
+        rw [rangeP_T0 h, rangeP_nil]
+        simp only [List.flatten_cons, List.nil_append]
+        rw [boundSetsTail_T0 h bb hb, boundSetsTail_nil]; rfl
+      · simp only [hd, if_false]
+        have hr := rangeP_app (dropBlanks u) h
+        rw [hr.1, hr.2]
+        simp only [List.flatten_cons, List.append_assoc]
+        congr 1
+        have hl1 := dropBlanks_length_le u
+        have hl2 := rangeP_length (dropBlanks u)
+        exact ih (rangeP (dropBlanks u)).2.length (by simp at hn; omega) _ (rangeP_atBar _) rfl
+
+theorem boundSets_app (z : List Char) (h : Sep t T0) (bb : List Char) (hb : T0 = '|' :: '|' :: bb) :
+    (boundSets (z ++ t)).1 = (boundSets z).1 ++ afterSep bb := by
+  unfold boundSets
+  simp only
+  have hr := rangeP_app z h
+  rw [hr.1, hr.2]
+  simp only [List.flatten_cons, List.append_assoc]
+  congr 1
+  exact boundSetsTail_app _ (rangeP_atBar z) h bb hb
+
+theorem boundSets_T0 (h : Sep t T0) (bb : List Char) (hb : T0 = '|' :: '|' :: bb) :
+    (boundSets T0).1 = afterSep bb := by
+  unfold boundSets
+  simp only
+  rw [rangeP_T0 h]
+  simp only [List.flatten_cons, List.nil_append]
+  exact boundSetsTail_T0 h bb hb
+
+/-- the alternatives of a text, as `Range::parse` sees them (leading blanks skipped) -/
+def altsOf (s : List Char) : List BoundSet := (boundSets (dropBlanks s)).1
+
+theorem parse_eq_alts (s : List Char) :
+    Range.parse s = if (altsOf s).isEmpty then .error ⟨s, 0, .noValidRanges⟩ else .ok (altsOf s) := rfl
+
+/-- **the alternatives of `a || b` are those of `a` followed by those of `b`**, for all texts -/
+theorem alts_or (a b : List Char) : altsOf (a ++ ' ' :: '|' :: '|' :: ' ' :: b) = altsOf a ++ altsOf b := by
+  have hsep : Sep (' ' :: '|' :: '|' :: ' ' :: b) ('|' :: '|' :: ' ' :: b) := ⟨rfl, ⟨' ' :: b, rfl⟩⟩
+  have hafter : afterSep (' ' :: b) = altsOf b := by
+    unfold afterSep altsOf
+    have : dropBlanks (' ' :: b) = dropBlanks b := by simp [dropBlanks, span, isBlank]
+    rw [this]
+  unfold altsOf
+  rw [dropBlanks_app a hsep]
+  by_cases ha : dropBlanks a = []
+  · rw [if_pos ha, boundSets_T0 hsep (' ' :: b) rfl, hafter, ha]
+    have : (boundSets []).1 = [] := by
+      unfold boundSets; simp only; rw [rangeP_nil]; simp only; rw [boundSetsTail_nil]; rfl
+    rw [this]; rfl
+  · rw [if_neg ha, boundSets_app _ hsep (' ' :: b) rfl, hafter]
+    rfl
+
+end Semver
